@@ -190,6 +190,12 @@ type Facts struct {
 	Payload string `json:"payload,omitempty"` // hex: what was signed (compared when accepted)
 }
 
+// CBShape is the answer of a Gate's check callback.
+type CBShape struct {
+	Lvl string `json:"lvl"`
+	Err bool   `json:"err"`
+}
+
 // Pair is an auxiliary observation with the value the property text implies.
 type Pair struct {
 	Name string `json:"name"`
@@ -257,11 +263,12 @@ type Case struct {
 	Obs    Obs        `json:"obs"`
 
 	// usage-pattern streams (usage.go)
-	Facts  *Facts `json:"facts,omitempty"`
-	Pairs  []Pair `json:"pairs,omitempty"`
-	JSONOK bool   `json:"jsonok,omitempty"` // sessjson: encoding/json accepts the signed payload
-	VRej   bool   `json:"vrej,omitempty"`   // jwtany: the caller's verifier returns an error
-	NoCard bool   `json:"nocard,omitempty"` // jwtrsfetch: the card's Identity call returned an error
+	Facts  *Facts   `json:"facts,omitempty"`
+	Pairs  []Pair   `json:"pairs,omitempty"`
+	JSONOK bool     `json:"jsonok,omitempty"` // sessjson: encoding/json accepts the signed payload
+	VRej   bool     `json:"vrej,omitempty"`   // jwtany: the caller's verifier returns an error
+	CB     *CBShape `json:"cb,omitempty"`     // gatecb: what the caller's check callback answers
+	NoCard bool     `json:"nocard,omitempty"` // jwtrsfetch: the card's Identity call returned an error
 
 	// sweep summary
 	Class    string `json:"class,omitempty"`
